@@ -102,3 +102,67 @@ def build(m):
                    loops={0: Loop(invariant=[])}, prop=['C01', 'C07']))
     m.add(Contract(MOD + ':is_control_char', [('char', STR)], returns=BOOL, pure=True,
                    requires=['len(char) == 1'], prop=['C01']))
+
+
+def build2(m):
+    """The delimiter stack: next_closer, matching_opener, process_emphasis (C01, C06: no text makes
+    the parser fail)."""
+    MO = TRef('MatchObj')
+    m.classes['MatchObj'] = {'type': STR, 'delimiter': STR, '_start': INT, '_end': INT}
+    ns = m.namespaces[MOD]
+    ns['MatchObj'] = ('class', 'MatchObj')
+    ns['process_emphasis'] = ('func', MOD + ':process_emphasis')
+    m.methods[('MatchObj', '__init__')] = MOD + ':MatchObj.__init__#1'
+    m.add(Contract(MOD + ':MatchObj.__init__#1', [('self', MO), ('start', INT), ('end', INT), ('f1', None), ('f2', None, NONE_VAL), ('f3', None, NONE_VAL)],
+                   trusted=True, ensures=['self._start == start', 'self._end == end'],
+                   modifies=['self._start', 'self._end'],
+                   note='MatchObj(start, end, *fields) stores its arguments (varargs tuple not modelled)'))
+    # every stack entry keeps the delimiter invariant, lies inside the string, and emphasis entries
+    # carry both flags; entries are pairwise different objects
+    m.predicate('STACK_OK', ['ds', 'string'],
+                "forall(lambda i: DELIM_OK(ds[i]) and ds[i].end <= len(string) and "
+                "field(ds[i], '__has_open') == field(ds[i], '__has_close'), 0, len(ds)) and "
+                "forall(lambda i, j: implies(i < j, ds[i] != ds[j]), 0, len(ds), 0, len(ds))")
+    m.predicate('CLOSER_AT', ['ds', 'p'], "EMPH(ds[p]) and ds[p].close")
+    m.add(Contract(MOD + ':next_closer', [('curr_pos', TOpt(INT)), ('delimiters', TList(DL))], returns=TOpt(INT), pure=True,
+                   requires=['is_none(curr_pos) or (0 <= some(curr_pos) and some(curr_pos) <= len(delimiters))',
+                             "forall(lambda i: field(delimiters[i], '__has_open') == field(delimiters[i], '__has_close'), 0, len(delimiters))"],
+                   ensures=['implies(not is_none(result), (0 if is_none(curr_pos) else some(curr_pos)) <= some(result) '
+                            'and some(result) < len(delimiters) and CLOSER_AT(delimiters, some(result)))'],
+                   loops={0: Loop(invariant=[])}, prop=P))
+    m.add(Contract(MOD + ':matching_opener', [('curr_pos', INT), ('delimiters', TList(DL)), ('bottom', TOpt(INT))],
+                   returns=TOpt(INT), pure=True,
+                   requires=['0 <= curr_pos', 'curr_pos < len(delimiters)', 'CLOSER_AT(delimiters, curr_pos)',
+                             'forall(lambda i: DELIM_OK(delimiters[i]) and '
+                             "field(delimiters[i], '__has_open') == field(delimiters[i], '__has_close'), 0, len(delimiters))",
+                             'is_none(bottom) or 0 <= some(bottom)'],
+                   ensures=['implies(not is_none(result), 0 <= some(result) and some(result) < curr_pos and '
+                            'EMPH(delimiters[some(result)]) and delimiters[some(result)].open)',
+                            # C06: the search never goes at or below the lower bound
+                            ('implies(not is_none(result) and not is_none(bottom), some(result) > some(bottom))', 'C06')],
+                   loops={0: Loop(invariant=['index == curr_pos - 1 - _k0'])}, prop=P))
+    m.add(Contract(MOD + ':process_emphasis',
+                   [('string', STR), ('stack_bottom', TOpt(INT)), ('delimiters', TList(DL)), ('matches', TList(MO))],
+                   requires=['STACK_OK(delimiters, string)',
+                             'is_none(stack_bottom) or (0 <= some(stack_bottom) and some(stack_bottom) < len(delimiters))'],
+                   ensures=['STACK_OK(new_delimiters, string)',
+                            'len(new_delimiters) == (0 if is_none(stack_bottom) else some(stack_bottom))',
+                            'forall(lambda i: new_delimiters[i] == delimiters[i], 0, len(new_delimiters))'],
+                   modifies=['P:delimiters', 'P:matches', 'F:Delimiter.start', 'F:Delimiter.end', 'F:Delimiter.number',
+                             'F:Delimiter.type', 'N:MatchObj.type', 'N:MatchObj.delimiter', 'N:MatchObj._start', 'N:MatchObj._end'],
+                   body_types={'curr_pos': TOpt(INT), 'star_bottom': TOpt(INT), 'underscore_bottom': TOpt(INT),
+                               'bottom': TOpt(INT)},
+                   loops={0: Loop(invariant=[
+                       'STACK_OK(delimiters, string)',
+                       'is_none(stack_bottom) or (0 <= some(stack_bottom) and some(stack_bottom) < len(delimiters))',
+                       'is_none(curr_pos) or (0 <= some(curr_pos) and some(curr_pos) < len(delimiters) and CLOSER_AT(delimiters, some(curr_pos)))',
+                       'is_none(curr_pos) or is_none(stack_bottom) or some(stack_bottom) <= some(curr_pos)',
+                       'is_none(star_bottom) or 0 <= some(star_bottom)',
+                       'is_none(underscore_bottom) or 0 <= some(underscore_bottom)',
+                       'is_none(stack_bottom) or (not is_none(star_bottom) and not is_none(underscore_bottom) '
+                       'and some(star_bottom) >= some(stack_bottom) and some(underscore_bottom) >= some(stack_bottom))',
+                       'forall(lambda i: delimiters[i] == old(delimiters)[i], 0, (0 if is_none(stack_bottom) else some(stack_bottom) + 1))',
+                   ])},
+                   prop=P,
+                   note='termination of loop#0 is not proved (lexicographic variant over a sum of heap fields); '
+                        'index and attribute safety do not depend on it'))
